@@ -46,8 +46,9 @@ class Socket(base_socket.BaseSocket):
                                 self.sid, packet_name,
                                 pkt.data if not isinstance(pkt.data, bytes)
                                 else '<binary>')
-        if self.closed:
-            # nothing is delivered for a session that has already ended
+        if self.closed or self.closing:
+            # nothing is delivered for a session that has already ended, or
+            # that another thread is ending right now
             raise exceptions.SocketIsClosedError()
         if pkt.packet_type == packet.PONG:
             self.schedule_ping()
